@@ -148,6 +148,65 @@ pub fn deep_child() -> i32 {
     0
 }
 
+/// A thread-local whose destructor presents token texts to the library. It is the FIRST thread-local the thread
+/// touches, so it is destroyed LAST: by then every thread-local the library (or the harness) created during the
+/// thread's life is gone.
+struct ExitGuard {
+    armed: std::cell::RefCell<Option<(Proto, Vec<u8>, Vec<String>, std::sync::Arc<std::sync::Mutex<Vec<String>>>)>>,
+}
+impl Drop for ExitGuard {
+    fn drop(&mut self) {
+        if let Some((p, key, tokens, sink)) = self.armed.borrow_mut().take() {
+            for (i, t) in tokens.iter().enumerate() {
+                for layer in adapter::raw_present_all(p, &key, t) {
+                    if let Ok(mut s) = sink.lock() {
+                        s.push(format!("EXIT-PANIC {} {} {}", p.name(), layer, i));
+                    }
+                }
+                if let Ok(mut s) = sink.lock() {
+                    s.push(format!("EXIT-CALLED {} {}", p.name(), i));
+                }
+            }
+        }
+    }
+}
+thread_local! {
+    static EXIT_GUARD: ExitGuard = ExitGuard { armed: std::cell::RefCell::new(None) };
+}
+
+/// `pvmc C09 --exit-child`: for every protocol a thread that (1) arms the exit guard, (2) uses all three layers
+/// the ordinary way (issue, accept, reject), (3) ends. The guard then calls the accepting entry points from the
+/// thread-local destructor phase. Isolated in a child process: a panic inside a destructor can abort.
+pub fn exit_child() -> i32 {
+    adapter::freeze_default_clock();
+    let sink = std::sync::Arc::new(std::sync::Mutex::new(Vec::<String>::new()));
+    for p in Proto::ALL {
+        let sink2 = sink.clone();
+        let h = std::thread::spawn(move || {
+            let key = domains::key_pool(p)[0].clone();
+            let seed = if p.is_local() { domains::seeds(p)[2].clone() } else { vec![] };
+            let Out::Ok(tok) = adapter::core_issue(p, &key.sk, &seed, "{\"data\":\"x\"}", None, None) else { return };
+            let mut tampered = tok.clone();
+            let last = tampered.pop().unwrap_or('A');
+            tampered.push(if last == 'A' { 'B' } else { 'A' });
+            let tokens = vec![tok.clone(), tampered, format!("{}AAAA", p.header()), "x.y.z".to_string()];
+            EXIT_GUARD.with(|g| *g.armed.borrow_mut() = Some((p, key.pk.clone(), tokens.clone(), sink2)));
+            adapter::freeze_default_clock();
+            for l in Layer::ALL {
+                for t in &tokens {
+                    let _ = adapter::present(p, l, &key.pk, t, None, None);
+                }
+            }
+        });
+        let _ = h.join();
+    }
+    for l in sink.lock().unwrap().iter() {
+        println!("{}", l);
+    }
+    println!("EXIT-DONE");
+    0
+}
+
 pub fn run(tier: &str) -> i32 {
     let run = Run::new("C09", tier);
     let quick = tier == "quick";
@@ -380,6 +439,35 @@ pub fn run(tier: &str) -> i32 {
         let mut n = Acc::merge_all(accs);
         n.sample(json!({"family": "i-nested-parse-inside-validator", "inputs": n.executions}));
         all.merge(n);
+    }
+
+    // ---- family (j): the accepting entry points called from a thread-local destructor while the thread ends
+    //      (after the thread has used the library the ordinary way), in a child process
+    {
+        let exe = std::env::current_exe().unwrap_or_else(|_| crate::report::machinery_error("no current_exe"));
+        let o = std::process::Command::new(&exe).args(["C09", "--exit-child"]).output().unwrap_or_else(|_| crate::report::machinery_error("cannot spawn the thread-exit child"));
+        let txt = String::from_utf8_lossy(&o.stdout).to_string();
+        let mut eacc = Acc::default();
+        let called = txt.lines().filter(|l| l.starts_with("EXIT-CALLED")).count();
+        eacc.executions += (called * 3) as u64;
+        eacc.impl_calls += (called * 3) as u64;
+        for l in txt.lines().filter(|l| l.starts_with("EXIT-PANIC")) {
+            let f: Vec<&str> = l.split(' ').collect();
+            eacc.violate(
+                format!("C09|{}/{}|thread-exit|panic", f.get(1).unwrap_or(&"?"), f.get(2).unwrap_or(&"?")),
+                format!("{} {} entry point called from a thread-local destructor at thread exit (after the thread had used the library) panicked on token text #{} (0 authentic, 1 tampered, 2 header + AAAA, 3 junk)", f.get(1).unwrap_or(&"?"), f.get(2).unwrap_or(&"?"), f.get(3).unwrap_or(&"?")),
+                json!({"kind": "thread-exit", "line": l}),
+            );
+        }
+        if !txt.contains("EXIT-DONE") {
+            eacc.violate("C09|thread-exit|process-abort".into(), format!("the process calling the entry points at thread exit died ({:?})", o.status), json!({"kind": "thread-exit", "line": "abort"}));
+        } else if called == 0 {
+            crate::report::machinery_error("the thread-exit child made no call (its destructor did not run)");
+        } else {
+            eacc.bump("thread-exit:child-finished");
+        }
+        eacc.sample(json!({"family": "j-calls-at-thread-exit (child process)", "calls": called * 3}));
+        all.merge(eacc);
     }
 
     // ---- family (f): Key::<N>::try_from(&str)
